@@ -222,6 +222,33 @@ def replay(rec):
             mism.append(dict(what='boundary setDraws table [unit][draw][variable by name rank]', got=bd['setDraws'][:1], want=wt))
     elif bd['setDraws']:
         mism.append(dict(what='boundary: draws set for a formula without draws'))
+    # a history: the table is edited AFTER it was declared panel (one individual removed); the map handed to the engine
+    # must be the one of the table as it is now
+    if rec['panel'] and rec['formula'] == 'none' and len(rec['map']) >= 2:
+        def after_remove():
+            import biogeme.biogeme as bio
+            import biogeme.expressions as ex
+
+            d3 = make_db(ids, xs)
+            d3.panel('id')
+            d3.remove(ex.Variable('id') == float(rec['map'][0][0]))
+            f3 = make_formula('none', True)
+            direct = [float(v) for v in f3.get_value_c(database=d3, number_of_draws=rec['R'], prepare_ids=True)]
+            bg3 = bio.BIOGEME(d3, make_formula('none', True), number_of_draws=rec['R'])
+            return direct, float(bg3.calculate_likelihood([float(BVAL)], scaled=False)), int(d3.get_sample_size())
+
+        st3, obs3 = forked(after_remove, timeout=120)
+        n += 1
+        rest = want[1:]
+        if st3 != 'ok':
+            mism.append(dict(what='evaluation after panel() then remove() of one individual', error=obs3))
+        else:
+            if len(obs3[0]) != len(rest) or any(not close(g, w, rel=tol) for g, w in zip(obs3[0], rest)):
+                mism.append(dict(what='get_value_c after panel() then remove() of one individual', got=obs3[0], want=rest))
+            if not close(obs3[1], sum(rest), rel=tol):
+                mism.append(dict(what='likelihood after panel() then remove() of one individual', got=obs3[1], want=sum(rest)))
+            if obs3[2] != len(rest):
+                mism.append(dict(what='sample size after panel() then remove() of one individual', got=obs3[2], want=len(rest)))
     # invariance under the order of individuals and of the rows of one individual (panel)
     if rec['panel'] and len(ids) > 1:
         ids2, xs2 = permuted(ids, xs)
